@@ -252,7 +252,8 @@ impl Session {
 		}
 		self.cur.push(format!("({}, {}, {})", idx, term, zs(expected)));
 		if self.keep_case_text {
-			self.case_text.push(term);
+			// term and what the implementation did (tab separated), so that a replay file can show both sides
+			self.case_text.push(format!("{}\t{}", term, zs(expected)));
 		}
 		if self.cur.len() >= self.shard_size {
 			self.flush();
